@@ -72,6 +72,8 @@ type WorkerResult struct {
 	Violations  []*Violation     `json:"violations"`
 	ReplayMatch *bool            `json:"replay_match,omitempty"`
 	Note        string           `json:"note,omitempty"`
+	Partial     bool             `json:"partial,omitempty"`
+	NextIndex   int              `json:"next_index,omitempty"`
 }
 
 type WorkerEnv struct {
@@ -85,6 +87,7 @@ type WorkerEnv struct {
 	MaxWall time.Duration
 	Out     string
 	Replay  string
+	Start   int // first run index to execute (restart after a crashed worker process)
 }
 
 func LoadWorkerEnv() (WorkerEnv, bool) {
@@ -99,6 +102,7 @@ func LoadWorkerEnv() (WorkerEnv, bool) {
 		e.Workers = 1
 	}
 	e.Runs, _ = strconv.Atoi(os.Getenv("VERIF_RUNS"))
+	e.Start, _ = strconv.Atoi(os.Getenv("VERIF_START"))
 	ms, _ := strconv.Atoi(os.Getenv("VERIF_MAXWALL_MS"))
 	e.MaxWall = time.Duration(ms) * time.Millisecond
 	if e.Tier == "" {
@@ -123,6 +127,22 @@ func findViolation(res RunResult, like *Violation) *Violation {
 	return nil
 }
 
+// crumbFile, when set, receives the spec about to be executed, so that the
+// driver can attribute a crash of the whole worker process (fatal runtime
+// error, out of memory) to the run that caused it.
+var crumbFile string
+
+func leaveCrumb(idx int, spec any) {
+	if crumbFile == "" {
+		return
+	}
+	raw, _ := json.Marshal(spec)
+	b, _ := json.Marshal(map[string]any{"idx": idx, "spec": json.RawMessage(raw)})
+	_ = os.WriteFile(crumbFile, b, 0o644)
+}
+
+var crumbIdx int
+
 // Minimise greedily shrinks spec while the same violation (class+signature) persists.
 func Minimise(h Harness, spec any, v *Violation, maxRuns int) (any, *Violation, int) {
 	runs := 0
@@ -134,6 +154,7 @@ func Minimise(h Harness, spec any, v *Violation, maxRuns int) (any, *Violation, 
 				break
 			}
 			runs++
+			leaveCrumb(crumbIdx, cand)
 			res := h.Run(cand)
 			if nv := findViolation(res, v); nv != nil {
 				cur, curV = cand, nv
@@ -244,12 +265,37 @@ func WorkerMain(h Harness, e WorkerEnv) int {
 		}
 	default:
 		seen := map[string]*Violation{}
+		if e.Out != "" {
+			crumbFile = e.Out + ".crumb"
+		}
+		flush := func(partial bool, next int) {
+			out.Partial, out.NextIndex = partial, next
+			out.Hashes = out.Hashes[:0]
+			for h := range hashes {
+				out.Hashes = append(out.Hashes, fmt.Sprintf("%016x", h))
+			}
+			sort.Strings(out.Hashes)
+			out.WallNs = int64(time.Since(start))
+			if e.Out != "" {
+				b, _ := json.Marshal(out)
+				_ = os.WriteFile(e.Out+".tmp", b, 0o644)
+				_ = os.Rename(e.Out+".tmp", e.Out)
+			}
+		}
 		for idx := e.Worker; idx < e.Runs; idx += e.Workers {
+			if idx < e.Start {
+				continue
+			}
+			if out.Runs%25 == 0 {
+				flush(true, idx)
+			}
 			if e.MaxWall > 0 && time.Since(start) > e.MaxWall {
 				out.Note = fmt.Sprintf("wall budget reached after %d of this worker's runs", out.Runs)
 				break
 			}
 			spec := h.Gen(NewSplitMix(e.Seed*1000003+uint64(idx)), e.Tier, idx)
+			crumbIdx = idx
+			leaveCrumb(idx, spec)
 			res := h.Run(spec)
 			out.Runs++
 			if res.Skipped {
@@ -288,6 +334,7 @@ func WorkerMain(h Harness, e WorkerEnv) int {
 				raw, _ := json.Marshal(mspec)
 				mv.Spec = raw
 				// the minimised spec must reproduce on a second execution
+				leaveCrumb(idx, mspec)
 				again := h.Run(mspec)
 				if nv := findViolation(again, mv); nv == nil || nv.LogHash != mv.LogHash {
 					var got []string
@@ -298,9 +345,15 @@ func WorkerMain(h Harness, e WorkerEnv) int {
 				}
 				seen[key] = mv
 				out.Violations = append(out.Violations, mv)
+				flush(true, idx+e.Workers)
 			}
 		}
+		out.Partial = false
+		if crumbFile != "" {
+			_ = os.Remove(crumbFile)
+		}
 	}
+	out.Hashes = out.Hashes[:0]
 	for h := range hashes {
 		out.Hashes = append(out.Hashes, fmt.Sprintf("%016x", h))
 	}
